@@ -9,16 +9,42 @@
      g_commit_files s = s_tree_files s  (the tree git write-tree would record).
    It is FALSE of the faithful model: every *_refuted theorem below exhibits a
    state (replayed on the implementation, known findings of C28).  Proved here:
-   the operations whose guard is simple (rm of a file, mv, clean -d, write-tree of
-   top-level entries).  NOT proved, only exercised by the correspondence and the
-   git oracle on every run: add (file / directory / all) under a guard, rm of a
-   directory, clean without -d, and BuildTree for nested directories (needs the
-   invariant "every key of h.trees has its parent chain and the file entries of
-   all trees are exactly the non-zero index entries seen so far"). *)
+   write-tree / commit for arbitrary nesting (C28_write_tree), and the operations
+   whose guard is simple (rm of a file, mv, clean -d).  NOT proved, only exercised
+   by the correspondence and the git oracle on every run: add (file / directory /
+   all) under a guard, rm of a directory, clean without -d; the per-directory
+   order of tree entries (sortName) and the tree ids are checked against
+   `git write-tree` by the oracle only. *)
 From Coq Require Import List NArith Bool String.
-From GoGit Require Import Base.Out Model.Status Model.IndexOps Spec.GitStatus Spec.GitIndexOps Proofs.C27 Proofs.C28.
+From Coq Require Import Permutation.
+From GoGit Require Import Base.Out Model.Status Model.IndexOps Spec.GitStatus Spec.GitIndexOps Proofs.C27 Proofs.C28 Proofs.C28Tree.
 Import ListNotations.
 Local Open Scope N_scope.
+
+(* --- commit: for EVERY index whose paths are normal (non-empty components, the
+   path is its own last joined prefix) and where no entry's path is a directory
+   of another entry (no D/F conflict), the files recorded in the trees BuildTree
+   builds are exactly the index entries with a non-zero id — any nesting depth,
+   any number of entries, duplicates (stages) included *)
+Theorem C28_write_tree : forall s,
+  tree_guard (st_index s) = true ->
+  Permutation (g_commit_files s) (map proj (filter nonzero (st_index s))).
+Proof. exact write_tree_nested. Qed.
+Print Assumptions C28_write_tree.
+
+(* ... hence git's write-tree content when no entry is intent-to-add *)
+Theorem C28_write_tree_git_partial : forall s,
+  tree_guard (st_index s) = true ->
+  forallb (fun e => nonzero e && negb (ie_ita e)) (st_index s) = true ->
+  Permutation (g_commit_files s) (s_tree_files s).
+Proof.
+  intros s G H. eapply perm_trans; [apply write_tree_nested; exact G|].
+  unfold s_tree_files. apply Permutation_refl'. clear G.
+  induction (st_index s) as [|e i IH]; [reflexivity|].
+  cbn [forallb] in H. apply andb_true_iff in H as [He H]. apply andb_true_iff in He as [H1 H2].
+  cbn [filter]. rewrite H1, H2. cbn [map]. f_equal. now apply IH.
+Qed.
+Print Assumptions C28_write_tree_git_partial.
 
 (* --- commit: for an index of top-level entries BuildTree records exactly the
    entries with a non-zero id, in index order (duplicates included: h.entries is never written) *)
@@ -146,7 +172,8 @@ Example C28_guards_inhabited :
                 [mkI pa MReg (mkHash 0 1) 2 5 false; mkI [98] MExec (mkHash 0 2) 2 5 false]
                 [mkW pa MReg 1 2 5 false false; mkW [98] MExec 2 2 5 false false; mkW [117] MReg 3 1 9 false false;
                  mkW pdx MReg 3 1 9 false false; mkW [111] MReg 3 1 9 true true] in
-  forallb flat_entry (st_index s) = true /\ mv_guard s pa [99] = true /\ clean_guard s = true /\
+  forallb flat_entry (st_index s) = true /\ tree_guard (st_index s) = true /\
+  mv_guard s pa [99] = true /\ clean_guard s = true /\
   (exists s', g_clean s true = ROk s' /\ map wf_path (st_wt s') = [pa; [98]; [111]]) /\
   (exists s', g_mv s pa [99] = ROk s' /\ map ie_path (st_index s') = [[98]; [99]]) /\
   g_commit_files s = [(pa, MReg, mkHash 0 1); ([98], MExec, mkHash 0 2)].
